@@ -266,6 +266,10 @@ func runExpect(repo, verif string) int {
 			exp[p] = names
 		}
 	}
+	if err := w.writeFunctions(verif); err != nil {
+		fmt.Fprintln(os.Stderr, err)
+		return 3
+	}
 	if nl, err := w.writeLocals(verif); err != nil {
 		fmt.Fprintln(os.Stderr, err)
 		return 3
@@ -285,7 +289,30 @@ func runExpect(repo, verif string) int {
 	return 0
 }
 
+// runCheckAll decides every property on one loaded tree, one after the other (a development aid for the self-tests:
+// solver answers for byte-identical goals and stand-in runs are shared between the properties).
+func runCheckAll(repo, verif, tier string) int {
+	memoOn = true
+	w, err := loadWorld(repo, verif)
+	if err != nil {
+		fmt.Fprintln(os.Stderr, "govc: cannot load:", err)
+		return 3
+	}
+	rc := 0
+	for _, p := range propertyIDs(verif) {
+		if c := checkWith(w, repo, verif, p, tier); c > rc {
+			rc = c
+		}
+	}
+	fmt.Fprintf(os.Stderr, "govc: %d goals answered from this run's memo\n", memoHits)
+	return rc
+}
+
 func runCheck(repo, verif, prop, tier string) int {
+	return checkWith(nil, repo, verif, prop, tier)
+}
+
+func checkWith(w *World, repo, verif, prop, tier string) int {
 	t0 := time.Now()
 	seed := 0
 	if s := os.Getenv("VERIF_SEED"); s != "" {
@@ -306,13 +333,17 @@ func runCheck(repo, verif, prop, tier string) int {
 	evPath := filepath.Join(out, "evidence", prop+".json")
 	os.MkdirAll(filepath.Dir(evPath), 0o755)
 	os.Remove(evPath)
-	w, err := loadWorld(repo, verif)
-	if err != nil {
-		// the tree does not load (does not compile, or a contract file does not parse): nothing can be decided
-		fmt.Fprintln(os.Stderr, "govc: cannot load:", err)
-		return 3
+	if w == nil {
+		var err error
+		w, err = loadWorld(repo, verif)
+		if err != nil {
+			// the tree does not load (does not compile, or a contract file does not parse): nothing can be decided
+			fmt.Fprintln(os.Stderr, "govc: cannot load:", err)
+			return 3
+		}
 	}
 	res := w.generate(prop)
+	tGen := time.Since(t0).Seconds()
 	work := filepath.Join(out, "work", prop)
 	os.RemoveAll(work)
 	timeout := 10
@@ -320,6 +351,14 @@ func runCheck(repo, verif, prop, tier string) int {
 		timeout = 60
 	}
 	discharge(w, res.obls, dischargeOpts{workDir: work, timeoutS: timeout, seed: seed, cross: tier == "thorough", jobs: 16})
+	tDis := time.Since(t0).Seconds()
+	if os.Getenv("VERIF_PROFILE") != "" {
+		for _, o := range res.obls {
+			if o.Seconds > 1.5 {
+				fmt.Fprintf(os.Stderr, "profile   %.1fs %s %s %s\n", o.Seconds, o.Status, o.Solver, o.Name)
+			}
+		}
+	}
 
 	// verdicts
 	expected := loadExpected(verif)[prop]
@@ -327,6 +366,7 @@ func runCheck(repo, verif, prop, tier string) int {
 	var failed []*Obligation
 	failed = append(failed, res.failed...)
 	nObl, nDis, nCover, nVacuous := 0, 0, 0, 0
+	var coverUndecided []string
 	byKind := map[string]int{}
 	bySolver := map[string]int{}
 	solverTime := 0.0
@@ -340,6 +380,9 @@ func runCheck(repo, verif, prop, tier string) int {
 		solverTime += o.Seconds
 		if o.Kind == "cover" {
 			nCover++
+			if o.Status != "sat" && o.Status != "unsat" {
+				coverUndecided = append(coverUndecided, o.Name)
+			}
 			if o.Status == "unsat" {
 				if why, ok := unreachable[o.Name]; ok {
 					// reviewed: this return cannot be taken under the function's contract (dead or excluded code)
@@ -385,6 +428,9 @@ func runCheck(repo, verif, prop, tier string) int {
 	}
 	// bounded stand-ins
 	res.standins = runStandins(w, repo, verif, prop, tier, seed)
+	if os.Getenv("VERIF_PROFILE") != "" {
+		fmt.Fprintf(os.Stderr, "profile %s: load+generate %.1fs, discharge %.1fs, stand-ins %.1fs\n", prop, tGen, tDis-tGen, time.Since(t0).Seconds()-tDis)
+	}
 	// known findings
 	known := loadKnown(verif)
 	var violations []*Obligation
@@ -504,6 +550,7 @@ func runCheck(repo, verif, prop, tier string) int {
 		"interface_refinement": map[string]any{"pairs": res.refinements, "clauses_not_comparable": res.refSkipped,
 			"note": "postconditions of interface-method contracts that do not speak about observation ghosts are checked against the contract of each implementing method; the others, and all frames, stay trusted"},
 		"renamed_locals":             w.renamedLocals,
+		"renamed_functions":          w.renamedFuncs,
 		"obligations":                nObl,
 		"discharged":                 nDis,
 		"checker_cmd":                fmt.Sprintf("/verif/bin/check %s %s  (govc: go/ssa of /repo -> SMT-LIB; z3-new 5.1.0, cvc5 1.0.3, z3 4.8.12)", prop, tier),
@@ -520,12 +567,13 @@ func runCheck(repo, verif, prop, tier string) int {
 		"bounded_standins":           standinEv,
 		"assumed_contracts_used":     assumedList,
 		"dropped_by_translation":     droppedByTranslation(),
-		"vacuity":                    map[string]any{"reviewed_unreachable_returns": nUnreach, "cover_queries": nCover, "vacuous": nVacuous, "expected_obligations": len(expected), "missing_expected": countKind(failed, "gone")},
-		"known_findings_reported":    len(knownHit),
-		"contract_files":             cf,
-		"per_solver_timeout_s":       timeout,
-		"cross_solver_agreement":     tier == "thorough",
-		"generator_notes":            w.notes,
+		"vacuity": map[string]any{"reviewed_unreachable_returns": nUnreach, "cover_queries": nCover, "vacuous": nVacuous, "covers_undecided": len(coverUndecided), "covers_undecided_names": coverUndecided,
+			"note": "a cover asks the solver for a model of the assumptions at an exit; with quantified assumptions it often answers neither sat nor unsat within its 3 s: such a point is not shown reachable (no vacuity verdict for it), only not shown unreachable", "expected_obligations": len(expected), "missing_expected": countKind(failed, "gone")},
+		"known_findings_reported": len(knownHit),
+		"contract_files":          cf,
+		"per_solver_timeout_s":    timeout,
+		"cross_solver_agreement":  tier == "thorough",
+		"generator_notes":         w.notes,
 	}
 	ev := map[string]any{
 		"property_id": prop, "tier": tier, "seed": seed, "level": "proof", "coverage": cov,
@@ -652,7 +700,7 @@ func writeReplay(w *World, repo, verif, prop string, o *Obligation, path string)
 	return confirmed
 }
 
-var siteOrdinalRe = regexp.MustCompile(`(#site@[^#]*)#\d+:`)
+var siteOrdinalRe = regexp.MustCompile(`(#(?:site|pre)@[^#]*)#\d+:`)
 
 // normSiteName drops the call-site ordinal from a site obligation's name.
 func normSiteName(n string) string {
